@@ -404,7 +404,9 @@ def run(chk):
         chk.floor("decorator forms entering the context manager", chk.info["decorator_forms"], 1)
     cof = lf.lookup("check_objects")
     ccf = lf.lookup("_check_channels_assigned_to_frames")
-    chk.require(ccf is not None and ccf in cg.callees(cof), "R17.6", "check_objects-calls-assignment-check",
+    from ..terms import unconditionally_calls
+    chk.require(ccf is not None and unconditionally_calls(chk.terms, cof, ccf), "R17.6",
+                "check_objects-calls-assignment-check",
                 "check_objects no longer runs the channel-frame assignment check", cof.where)
 
 
